@@ -2,7 +2,7 @@ import SlugModel.Builder
 /-!
 # Lemmas/BuilderLog — helper lemmas about the builder model
 
-* `assoc` facts, `selectVersion` as a fold (`selStep`), frame facts for `applyDecls`;
+* `assoc` facts, `selectVersion` as a fold (`selStepL`), frame facts for `applyDecls`;
 * the *bracket automaton* over the call log (`Phase`, `AState`, `step`, `runFrom`, `wf`, `scan`)
   and the invariant `LogOK` that ties the log to the memo tables of a `BState`;
 * preservation of `LogOK` by every transition of the model.
@@ -13,11 +13,11 @@ namespace Slug
 
 theorem assoc_nil {α β : Type} [DecidableEq α] (k : α) : assoc ([] : List (α × β)) k = none := rfl
 
-theorem assoc_cons {α β : Type} [DecidableEq α] (a : α) (b : β) (l : List (α × β)) (k : α) :
+theorem assoc_consL {α β : Type} [DecidableEq α] (a : α) (b : β) (l : List (α × β)) (k : α) :
     assoc ((a, b) :: l) k = if a = k then some b else assoc l k := rfl
 
 theorem assoc_cons_self {α β : Type} [DecidableEq α] (a : α) (b : β) (l : List (α × β)) :
-    assoc ((a, b) :: l) a = some b := by simp [assoc_cons]
+    assoc ((a, b) :: l) a = some b := by simp [assoc_consL]
 
 theorem assoc_eq_none_iff {α β : Type} [DecidableEq α] (l : List (α × β)) (k : α) :
     assoc l k = none ↔ k ∉ l.map Prod.fst := by
@@ -25,7 +25,7 @@ theorem assoc_eq_none_iff {α β : Type} [DecidableEq α] (l : List (α × β)) 
   | nil => simp [assoc_nil]
   | cons x r ih =>
     obtain ⟨a, b⟩ := x
-    rw [assoc_cons]
+    rw [assoc_consL]
     by_cases h : a = k
     · simp [h]
     · simp only [h, if_false, ih, List.map_cons, List.mem_cons, not_or]
@@ -41,7 +41,7 @@ theorem assoc_some_mem_keys {α β : Type} [DecidableEq α] (l : List (α × β)
 /-! ## `selectVersion` as a fold -/
 
 /-- one step of `selectVersion` -/
-def selStep (allowed : List VerS) (best : Option VerInfo) (v : VerInfo) : Option VerInfo :=
+def selStepL (allowed : List VerS) (best : Option VerInfo) (v : VerInfo) : Option VerInfo :=
   if allowed.contains v.ver then
     match best with
     | none => some v
@@ -49,27 +49,27 @@ def selStep (allowed : List VerS) (best : Option VerInfo) (v : VerInfo) : Option
   else best
 
 theorem selectVersion_eq_foldl (offered : List VerInfo) (allowed : List VerS) :
-    selectVersion offered allowed = offered.foldl (selStep allowed) none := rfl
+    selectVersion offered allowed = offered.foldl (selStepL allowed) none := rfl
 
-theorem selStep_none (allowed : List VerS) (x : VerInfo) (hx : allowed.contains x.ver = true) :
-    selStep allowed none x = some x := by
-  unfold selStep; rw [if_pos hx]
+theorem selStepL_none (allowed : List VerS) (x : VerInfo) (hx : allowed.contains x.ver = true) :
+    selStepL allowed none x = some x := by
+  unfold selStepL; rw [if_pos hx]
 
-theorem selStep_lt (allowed : List VerS) (b x : VerInfo) (hx : allowed.contains x.ver = true)
-    (hlt : b.rank < x.rank) : selStep allowed (some b) x = some x := by
-  unfold selStep; rw [if_pos hx]; simp only [if_pos hlt]
+theorem selStepL_lt (allowed : List VerS) (b x : VerInfo) (hx : allowed.contains x.ver = true)
+    (hlt : b.rank < x.rank) : selStepL allowed (some b) x = some x := by
+  unfold selStepL; rw [if_pos hx]; simp only [if_pos hlt]
 
-theorem selStep_nlt (allowed : List VerS) (b x : VerInfo) (hx : allowed.contains x.ver = true)
-    (hlt : ¬ b.rank < x.rank) : selStep allowed (some b) x = some b := by
-  unfold selStep; rw [if_pos hx]; simp only [if_neg hlt]
+theorem selStepL_nlt (allowed : List VerS) (b x : VerInfo) (hx : allowed.contains x.ver = true)
+    (hlt : ¬ b.rank < x.rank) : selStepL allowed (some b) x = some b := by
+  unfold selStepL; rw [if_pos hx]; simp only [if_neg hlt]
 
-theorem selStep_skip (allowed : List VerS) (best : Option VerInfo) (x : VerInfo)
-    (hx : ¬ allowed.contains x.ver = true) : selStep allowed best x = best := by
-  unfold selStep; rw [if_neg hx]
+theorem selStepL_skip (allowed : List VerS) (best : Option VerInfo) (x : VerInfo)
+    (hx : ¬ allowed.contains x.ver = true) : selStepL allowed best x = best := by
+  unfold selStepL; rw [if_neg hx]
 
 /-- what the fold returns, for an arbitrary starting value -/
 theorem selFold_some (allowed : List VerS) (l : List VerInfo) (best : Option VerInfo) (v : VerInfo)
-    (h : l.foldl (selStep allowed) best = some v) :
+    (h : l.foldl (selStepL allowed) best = some v) :
     (best = some v ∨ (v ∈ l ∧ allowed.contains v.ver = true)) ∧
     (∀ b, best = some b → b.rank ≤ v.rank) ∧
     (∀ u ∈ l, allowed.contains u.ver = true → u.rank ≤ v.rank) := by
@@ -86,7 +86,7 @@ theorem selFold_some (allowed : List VerS) (l : List VerInfo) (best : Option Ver
     by_cases hx : allowed.contains x.ver = true
     · cases best with
       | none =>
-        have e := selStep_none allowed x hx
+        have e := selStepL_none allowed x hx
         rw [e] at h1 h2
         refine ⟨Or.inr ?_, ?_, ?_⟩
         · rcases h1 with h1 | h1
@@ -99,7 +99,7 @@ theorem selFold_some (allowed : List VerS) (l : List VerInfo) (best : Option Ver
           · exact h3 u hu hau
       | some b =>
         by_cases hlt : b.rank < x.rank
-        · have e := selStep_lt allowed b x hx hlt
+        · have e := selStepL_lt allowed b x hx hlt
           rw [e] at h1 h2
           refine ⟨Or.inr ?_, ?_, ?_⟩
           · rcases h1 with h1 | h1
@@ -111,7 +111,7 @@ theorem selFold_some (allowed : List VerS) (l : List VerInfo) (best : Option Ver
             rcases List.mem_cons.mp hu with rfl | hu
             · exact h2 _ rfl
             · exact h3 u hu hau
-        · have e := selStep_nlt allowed b x hx hlt
+        · have e := selStepL_nlt allowed b x hx hlt
           rw [e] at h1 h2
           refine ⟨?_, ?_, ?_⟩
           · rcases h1 with h1 | h1
@@ -122,7 +122,7 @@ theorem selFold_some (allowed : List VerS) (l : List VerInfo) (best : Option Ver
             rcases List.mem_cons.mp hu with rfl | hu
             · exact Nat.le_trans (Nat.le_of_not_lt hlt) (h2 _ rfl)
             · exact h3 u hu hau
-    · have e := selStep_skip allowed best x hx
+    · have e := selStepL_skip allowed best x hx
       rw [e] at h1 h2
       refine ⟨?_, h2, ?_⟩
       · rcases h1 with h1 | h1
@@ -134,7 +134,7 @@ theorem selFold_some (allowed : List VerS) (l : List VerInfo) (best : Option Ver
         · exact h3 u hu hau
 
 theorem selFold_none (allowed : List VerS) (l : List VerInfo) (best : Option VerInfo) :
-    l.foldl (selStep allowed) best = none ↔
+    l.foldl (selStepL allowed) best = none ↔
       best = none ∧ ∀ u ∈ l, allowed.contains u.ver = false := by
   induction l generalizing best with
   | nil => simp
@@ -144,14 +144,14 @@ theorem selFold_none (allowed : List VerS) (l : List VerInfo) (best : Option Ver
     · constructor
       · intro ⟨h, _⟩
         cases best with
-        | none => rw [selStep_none allowed x hx] at h; cases h
+        | none => rw [selStepL_none allowed x hx] at h; cases h
         | some b =>
           by_cases hlt : b.rank < x.rank
-          · rw [selStep_lt allowed b x hx hlt] at h; cases h
-          · rw [selStep_nlt allowed b x hx hlt] at h; cases h
+          · rw [selStepL_lt allowed b x hx hlt] at h; cases h
+          · rw [selStepL_nlt allowed b x hx hlt] at h; cases h
       · intro ⟨_, h, _⟩
         rw [h] at hx; cases hx
-    · have e := selStep_skip allowed best x hx
+    · have e := selStepL_skip allowed best x hx
       rw [e]
       have hx' : allowed.contains x.ver = false := by simpa using hx
       exact ⟨fun ⟨a, b⟩ => ⟨a, hx', b⟩, fun ⟨a, _, b⟩ => ⟨a, b⟩⟩
@@ -192,7 +192,7 @@ def frsSource (w : World) (st1 : BState) (pkg : RegPkg) (vs : List VerInfo) (sel
       ({ st1 with log := .srcFail pkg sel.ver :: .srcCall pkg sel.ver :: .srcStart pkg sel.ver :: st1.log }, none)
 
 /-- `findRegistrySource` is the composition of its two stages (definitional) -/
-theorem findRegistrySource_eq (w : World) (st : BState) (src : RegSrc) (allowed : List VerS) :
+theorem findRegistrySource_eqL (w : World) (st : BState) (src : RegSrc) (allowed : List VerS) :
     findRegistrySource w st src allowed =
       match frsVersions w st src.pkg with
       | (st1, none) => (st1, none)
@@ -279,7 +279,7 @@ structure StepInv (w : World) (P : BState → Prop) : Prop where
 theorem findRegistrySource_inv {w : World} {P : BState → Prop} (hP : StepInv w P)
     (st : BState) (src : RegSrc) (allowed : List VerS) (h : P st) :
     P (findRegistrySource w st src allowed).1 := by
-  rw [findRegistrySource_eq]
+  rw [findRegistrySource_eqL]
   have h1 := hP.versions st src.pkg h
   split
   · next st1 e => rw [e] at h1; exact h1
@@ -298,7 +298,7 @@ theorem applyDecls_inv {w : World} {P : BState → Prop} (hP : StepInv w P)
     P (applyDecls base decls st ds).1 :=
   hP.memo _ _ (applyDecls_sameMemo base decls st ds) h
 
-theorem drain_inv {w : World} {P : BState → Prop} (hP : StepInv w P) (fuel : Nat) (ph : Bool)
+theorem drain_invL {w : World} {P : BState → Prop} (hP : StepInv w P) (fuel : Nat) (ph : Bool)
     (st : BState) (ds : List Diag) (st' : BState) (ds' : List Diag)
     (h : P st) (hd : drain w fuel ph st ds = .done st' ds') : P st' := by
   induction fuel generalizing ph st ds with
@@ -370,7 +370,7 @@ theorem applyOp_inv {w : World} {P : BState → Prop} (hP : StepInv w P) (fuel :
           split
           · exact h1
           · next st2 ds hd =>
-            exact hP.memo st2 _ ⟨rfl, rfl, rfl, rfl, rfl, rfl, rfl⟩ (drain_inv hP _ _ _ _ _ _ h1 hd)
+            exact hP.memo st2 _ ⟨rfl, rfl, rfl, rfl, rfl, rfl, rfl⟩ (drain_invL hP _ _ _ _ _ _ h1 hd)
     | addRegistry src allowed f =>
       simp only
       have h1 : P { st with pendingRegistry := st.pendingRegistry ++ [(src, allowed, f)] } :=
@@ -378,7 +378,7 @@ theorem applyOp_inv {w : World} {P : BState → Prop} (hP : StepInv w P) (fuel :
       split
       · exact h1
       · next st2 ds hd =>
-        exact hP.memo st2 _ ⟨rfl, rfl, rfl, rfl, rfl, rfl, rfl⟩ (drain_inv hP _ _ _ _ _ _ h1 hd)
+        exact hP.memo st2 _ ⟨rfl, rfl, rfl, rfl, rfl, rfl, rfl⟩ (drain_invL hP _ _ _ _ _ _ h1 hd)
 
 theorem runOps_inv {w : World} {P : BState → Prop} (hP : StepInv w P) (fuel : Nat)
     (st : BState) (ops : List Op) (h : P st) : P (runOps w fuel st ops).1 := by
@@ -1118,7 +1118,7 @@ theorem drain_diags_prefix (w : World) (fuel : Nat) (ph : Bool) (st : BState) (d
             rw [applyDecls_diags] at hx
             exact ⟨_, by rw [hx, List.append_assoc, List.append_assoc]⟩
 
-theorem hasErrors_append (a b : List Diag) : hasErrors (a ++ b) = (hasErrors a || hasErrors b) := by
+theorem hasErrors_appendL (a b : List Diag) : hasErrors (a ++ b) = (hasErrors a || hasErrors b) := by
   simp [hasErrors]
 
 /-! ## cache coherence -/
@@ -1147,7 +1147,7 @@ theorem cacheOK_stepInv (w : World) : StepInv w (CacheOK w) where
       · next vs hw =>
         refine ⟨?_, h.2⟩
         intro r vs' hr
-        simp only [assoc_cons] at hr
+        simp only [assoc_consL] at hr
         split at hr
         · next e => cases hr; rw [← e]; exact hw
         · exact h.1 r vs' hr
@@ -1161,7 +1161,7 @@ theorem cacheOK_stepInv (w : World) : StepInv w (CacheOK w) where
       · next real hw =>
         refine ⟨h.1, ?_⟩
         intro k real' hr
-        simp only [assoc_cons] at hr
+        simp only [assoc_consL] at hr
         split at hr
         · next e => cases hr; rw [← e]; exact hw
         · exact h.2 k real' hr
@@ -1264,7 +1264,7 @@ deprecated).  The root of `A` needs `B//sub`, the registry module `R` (1.0.0 or 
 child, and its finder emits a warning; `B//sub` needs the root of `A` again (a cycle);
 `R` 1.1.0 lives in `B//modules/x`, which needs `B//other`; `B//deep` has a dependency that escapes
 the package. -/
-def exWorld : World where
+def exWorldL : World where
   fetch := [(exPkgA, some ("cA".toList, none)),
             (exPkgB, some ("cB".toList, some ("b".toList, "1".toList)))]
   versions := [(exReg, some [⟨"1.1.0".toList, 1, some ("old".toList, "http://x".toList)⟩,
@@ -1281,7 +1281,7 @@ def exWorld : World where
            (("cB".toList, "deep".toList, 0), [.loc "../..".toList 0])]
 
 /-- a successful add, then a registry request no offered version satisfies, then one more add -/
-def exOps : List Op :=
+def exOpsL : List Op :=
   [.addRemote ⟨exPkgA, []⟩ 0,
    .addRegistry ⟨exReg, []⟩ ["3.0.0".toList] 0,
    .addRemote ⟨exPkgB, []⟩ 0]
